@@ -5,6 +5,7 @@
 package mon
 
 import (
+	"crypto/rand"
 	"encoding/binary"
 	"encoding/json"
 	"fmt"
@@ -182,7 +183,58 @@ func (c *Ctx) exec(cs any) {
 		}
 	}
 
+	// Hostile ambient entropy for one case in eight: crypto/rand.Reader serves a degenerate prefix (all zero, the bytes
+	// of p, the bytes of n, all ones) before pseudo-random bytes. The library reads entropy only in Scalar.Random, which
+	// the checks script themselves, so on a tree that holds the properties this changes nothing; an operation that starts
+	// to depend on "random" blinding or nonces is exposed to the values it must not trust.
+	if !c.Prop.NoNoise && c.noiseRng.Intn(8) == 0 {
+		old := rand.Reader
+		rand.Reader = newHostileReader(c.noiseRng)
+
+		c.Res.Counters["cases-run-under-hostile-entropy"]++
+
+		defer func() { rand.Reader = old }()
+	}
+
 	c.Prop.Run(c, cs)
+}
+
+type hostileReader struct {
+	prefix []byte
+	pos    int
+	r      *gen.Rng
+}
+
+var hostilePrefixes = [][]byte{
+	make([]byte, 32),
+	{0xff, 0xff, 0xff, 0xff, 0xff, 0xff, 0xff, 0xff, 0xff, 0xff, 0xff, 0xff, 0xff, 0xff, 0xff, 0xff, 0xff, 0xff, 0xff, 0xff, 0xff, 0xff, 0xff, 0xff, 0xff, 0xff, 0xff, 0xfe, 0xff, 0xff, 0xfc, 0x2f}, // p
+	{0xff, 0xff, 0xff, 0xff, 0xff, 0xff, 0xff, 0xff, 0xff, 0xff, 0xff, 0xff, 0xff, 0xff, 0xff, 0xfe, 0xba, 0xae, 0xdc, 0xe6, 0xaf, 0x48, 0xa0, 0x3b, 0xbf, 0xd2, 0x5e, 0x8c, 0xd0, 0x36, 0x41, 0x41}, // n
+	{0xff, 0xff, 0xff, 0xff, 0xff, 0xff, 0xff, 0xff, 0xff, 0xff, 0xff, 0xff, 0xff, 0xff, 0xff, 0xff, 0xff, 0xff, 0xff, 0xff, 0xff, 0xff, 0xff, 0xff, 0xff, 0xff, 0xff, 0xff, 0xff, 0xff, 0xff, 0xff},
+}
+
+func newHostileReader(r *gen.Rng) *hostileReader {
+	pat := hostilePrefixes[r.Intn(len(hostilePrefixes))]
+
+	var prefix []byte
+	for i := 0; i < 4; i++ {
+		prefix = append(prefix, pat...)
+	}
+
+	return &hostileReader{prefix: prefix, r: gen.New(r.U64(), "hostile-entropy")}
+}
+
+func (h *hostileReader) Read(p []byte) (int, error) {
+	for i := range p {
+		if h.pos < len(h.prefix) {
+			p[i] = h.prefix[h.pos]
+		} else {
+			p[i] = byte(h.r.U64())
+		}
+
+		h.pos++
+	}
+
+	return len(p), nil
 }
 
 // Eval counts n monitored calls.
